@@ -25,7 +25,7 @@ use std::{
 pub static DEF: PropDef = PropDef {
     id: "C02",
     level: "exploration",
-    total: |t| t.pick(64, 1600),
+    total: |t| t.pick(64, 2400),
     run,
     rule: "one listening server and 1..8 (quick) / 1..32 (thorough) clients over sockets, TCP, IPv4, optional ARP and one link: each client issues 1..40 writes (sizes 1, 5, MSS-1, MSS, MSS+1, 4000, 70000; back-to-back or spaced by simulated sleeps) through Socket::send or TcpStream::write; the server reads each connection with recv(n)/read_exact(n)/read() using n from {1,3,4,7,100,1460,65536}, eagerly or after a late start; MTU in {100,576,1500,65535}; latency jitter 0..5 ms; H4 plans dropping <=3 consecutive frames per direction and duplicating <=2; executed on the current_thread runtime with paused clock and on the multi_thread runtime with 2, 4 or 16 workers (content checks only). Every written byte encodes (connection id, stream offset) so loss, duplication, reordering and cross-talk are told apart; every read records (n asked, bytes got). Datagram sockets: each datagram must arrive intact or not at all, at the connected peer only. Non-trivial = >=2 writes in flight at once and >=1 partial read; multi-thread runs additionally count distinct arrival-order fingerprints.",
     assumptions: &[
